@@ -149,6 +149,8 @@ enum Alter {
     /// a listed path spelled differently (separator, letter case, blanks), its file served under that spelling:
     /// another location on disk, hence another file, than the one the signer vouched for
     PathRespelled(u16, u8),
+    /// the LAST byte of a listed file changed (manifest untouched)
+    TailByteChanged(u16),
     SigFlip(u16),
     SigRemoved,
     /// whole manifest re-signed with another key (true: after adding an evil file)
@@ -182,6 +184,10 @@ struct AncSpec {
     alter: Alter,
     extras: Vec<AncExtra>,
     manifest_first: bool,
+    /// size class of the last listed ledger file: 0 small (tens of bytes), 1 just over 64 KiB, 2 just over 2 MiB (sizes
+    /// around the read-buffer sizes of the hashing code: every byte of a listed file is vouched for, not a prefix)
+    #[serde(default)]
+    big: u8,
 }
 
 #[derive(Clone, Debug, Serialize, Deserialize, PartialEq)]
@@ -771,6 +777,24 @@ fn build_world(c: &Case, root: &Path, http_base: Option<&str>, rep: &mut Report)
     for p in &anc_paths {
         files.insert(p.clone(), content(c.seed, "anc", p));
     }
+    if c.anc.big % 3 != 0 {
+        if let Some(p) = anc_paths.iter().rev().find(|p| p.starts_with("ledger/")) {
+            let size = if c.anc.big % 3 == 1 { 64 * 1024 + 1 } else { 2 * 1024 * 1024 + 4097 };
+            let mut data = Vec::with_capacity(size + 32);
+            let seed_block = content(c.seed, "anc-big", p);
+            let mut ctr = 0u32;
+            while data.len() < size {
+                let mut h = Sha256::new();
+                h.update(&seed_block);
+                h.update(ctr.to_le_bytes());
+                data.extend_from_slice(&h.finalize());
+                ctr += 1;
+            }
+            data.truncate(size);
+            files.insert(p.clone(), data);
+            rep.label(if c.anc.big % 3 == 1 { "anc-file:over-64KiB" } else { "anc-file:over-2MiB" });
+        }
+    }
     let signed_data: BTreeMap<String, String> = files.iter().map(|(k, v)| (k.clone(), sha_hex(v))).collect();
     let signature = signer.sign(&manifest_message(&signed_data)).to_bytes_hex().expect("sig hex");
     let mut data = signed_data.clone();
@@ -815,6 +839,15 @@ fn build_world(c: &Case, root: &Path, http_base: Option<&str>, rep: &mut Report)
             let f = files.remove(k).unwrap();
             files.insert(nk, f);
             rep.label("anc-alter:entries");
+        }
+        Alter::TailByteChanged(i) => {
+            // prefer the biggest file: the one whose tail is farthest from its head
+            let k = if c.anc.big % 3 != 0 { files.iter().max_by_key(|(_, v)| v.len()).map(|(k, _)| k.clone()).unwrap() } else { keys[pick_index(*i, keys.len())].clone() };
+            let f = files.get_mut(&k).unwrap();
+            let last = f.len() - 1;
+            f[last] ^= 0x01;
+            rep.label("anc-alter:content");
+            rep.label("anc-alter:tail-byte");
         }
         Alter::PathRespelled(i, style) => {
             let k = &keys[pick_index(*i, keys.len())];
@@ -1593,7 +1626,7 @@ fn witness_base() -> Case {
         mirror2: 0,
         pre: vec![],
         imm_extras: vec![],
-        anc: AncSpec { layout: 1, alter: Alter::None, extras: vec![], manifest_first: false },
+        anc: AncSpec { layout: 1, alter: Alter::None, extras: vec![], manifest_first: false, big: 0 },
         faults: vec![],
         http: false,
     }
@@ -1670,6 +1703,7 @@ fn abort_case_fn(a: &AbortCase, known: &BTreeSet<String>) -> Report {
             alter: if a.evil { Alter::SigOtherKey(true) } else { Alter::None },
             extras: vec![],
             manifest_first: a.manifest_first,
+            big: 0,
         },
         faults: vec![],
         http: false,
@@ -1861,6 +1895,7 @@ fn alter_strategy() -> impl Strategy<Value = Alter> {
         2 => any::<u16>().prop_map(Alter::EntryRemoved),
         1 => any::<u16>().prop_map(Alter::PathRenamed),
         2 => (any::<u16>(), any::<u8>()).prop_map(|(i, s)| Alter::PathRespelled(i, s)),
+        2 => any::<u16>().prop_map(Alter::TailByteChanged),
         2 => any::<u16>().prop_map(Alter::SigFlip),
         2 => Just(Alter::SigRemoved),
         2 => any::<bool>().prop_map(Alter::SigOtherKey),
@@ -1892,7 +1927,8 @@ fn anc_extras_strategy() -> impl Strategy<Value = Vec<AncExtra>> {
 fn anc_strategy(altered: bool, with_extras: bool) -> impl Strategy<Value = AncSpec> {
     let alter = if altered { alter_strategy().boxed() } else { Just(Alter::None).boxed() };
     let extras = if with_extras { anc_extras_strategy().boxed() } else { Just(vec![]).boxed() };
-    (0u8..3, alter, extras, any::<bool>()).prop_map(|(layout, alter, extras, manifest_first)| AncSpec { layout, alter, extras, manifest_first })
+    let big = prop_oneof![17 => Just(0u8), 2 => Just(1u8), 1 => Just(2u8)];
+    (0u8..3, alter, extras, any::<bool>(), big).prop_map(|(layout, alter, extras, manifest_first, big)| AncSpec { layout, alter, extras, manifest_first, big })
 }
 
 fn fault_strategy() -> impl Strategy<Value = Fault> {
@@ -2043,6 +2079,9 @@ pub fn run(args: &Args) -> i32 {
         "anc-extra",
         "anc-extra:odd-name",
         "anc-alter:path-respelled",
+        "anc-alter:tail-byte",
+        "anc-file:over-64KiB",
+        "anc-file:over-2MiB",
         "anc-alter:content",
         "anc-alter:content-in-subdir",
         "anc-alter:entries",
@@ -2088,7 +2127,7 @@ pub fn run(args: &Args) -> i32 {
         "manifest entries (ledger/a,h1),(ledger/b,h2) replaced by the single entry (ledger/a+h1+ledger/b, h2) still verify under the original signature",
         || {
             fails(
-                Case { include_ancillary: true, anc: AncSpec { layout: 1, alter: Alter::MergeAdjacent(0), extras: vec![], manifest_first: false }, ..witness_base() },
+                Case { include_ancillary: true, anc: AncSpec { layout: 1, alter: Alter::MergeAdjacent(0), extras: vec![], manifest_first: false, big: 0 }, ..witness_base() },
                 "manifest-entry-splicing-accepted",
             )
         },
